@@ -665,7 +665,10 @@ class Eval:
         if k == "Binary":
             return ("bin", e["op"], self.expr(e["l"], env, depth), self.expr(e["r"], env, depth))
         if k == "Index":
-            return ("index", self.expr(e["e"], env, depth), self.expr(e["idx"], env, depth))
+            base_, idx_ = self.expr(e["e"], env, depth), self.expr(e["idx"], env, depth)
+            if isinstance(base_, tuple) and base_[:1] == ("list",) and isinstance(idx_, tuple) and idx_[:1] == ("lit",) and isinstance(idx_[1], int) and 0 <= idx_[1] < len(base_[1]):
+                return base_[1][idx_[1]]   # an element of a literal list
+            return ("index", base_, idx_)
         if k == "Ret":
             v = self.expr(e["e"], env, depth) if "e" in e else ("unit",)
             self.returns.append((tuple(x for x in self.conds if x[0][:1] != ("survived",) and len(x) == 2), v))
